@@ -459,4 +459,15 @@ theorem failTrunc_ok (k : Nat) (t : Trace) (h : traceOK t = true) : traceOK (fai
     rw [e]
     exact run_rel_all _ []
 
+theorem list_prefix_lt_iff (p a b : List Char) : p ++ a < p ++ b ↔ a < b := by
+  induction p with
+  | nil => simp
+  | cons c p ih => simp [ih]
+
+/-- formatted lock names that share their group's prefix compare as the names themselves
+    (`sort.Strings` on `plock_<pod>` strings = sorting the pod names) -/
+theorem prefix_lt_iff (p a b : String) : p ++ a < p ++ b ↔ a < b := by
+  rw [String.lt_iff, String.lt_iff, String.toList_append, String.toList_append]
+  exact list_prefix_lt_iff _ _ _
+
 end Eru.Lock
